@@ -440,6 +440,13 @@ func cmdCheck(args []string) int {
 				"solver_s": round3(it.o.Seconds), "smt_bytes": len(queryText(it.fr, it.o))})
 		}
 	}
+	// the slowest obligations (watch list for solver-time regressions)
+	slow := append([]workItem(nil), run.items...)
+	sort.Slice(slow, func(i, j int) bool { return slow[i].o.Seconds > slow[j].o.Seconds })
+	var slowest []interface{}
+	for i := 0; i < len(slow) && i < 10; i++ {
+		slowest = append(slowest, map[string]interface{}{"obligation": slow[i].o.Name, "solver": slow[i].o.Solver, "solver_s": round3(slow[i].o.Seconds)})
+	}
 	trusted := []string{}
 	for t := range run.trusted {
 		trusted = append(trusted, t)
@@ -462,6 +469,7 @@ func cmdCheck(args []string) int {
 			"known_findings": known_,
 			"baseline_missing": nonNil(missing),
 			"samples":      samples,
+			"slowest":      slowest,
 			"stand_ins":    run.standIns(),
 			"notes":        nonNil(run.notes),
 			"explanation":  "every obligation is a verification condition generated from the go/ssa form of the function in /repo's working tree and its //@ contract; discharged = unsat of the negated VC by at least one of z3 4.8.12 / z3 5.1.0 / cvc5",
